@@ -29,7 +29,17 @@ def _replay(model):
     return native_file('bounded/c15_textslice.py')
 
 
+def _dynamic_guard_region(fn):
+    """ParsingFrontend.parse: the statement that decides what a dynamic Earley lexer is given"""
+    import ast
+    for st_ in fn.body:
+        if isinstance(st_, ast.If) and 'dynamic' in ast.unparse(st_.test):
+            return [st_]
+    return None
+
+
 def register(reg):
+    register_frontend(reg)
     textmodel.register_text(reg)
     reg.cls('TextSlice', target='lark.utils:TextSlice', fields={'text': 'text', 'start': 'int', 'end': 'opt[int]'})
     S = ['C15']
@@ -68,3 +78,25 @@ def register(reg):
     reg.contract('lark.utils:TextSlice.rindex', serves=S, kind='method', params={'self': 'TextSlice', 'substr': 'any'}, returns='int',
                  requires=WIN + ['NLCHAR(substr, self.text)', 'NLC(self.text, self.start, val(self.end)) > 0'],
                  ensures=['result == LNL(self.text, self.start, val(self.end))'], replay=_replay)       # an offset in the underlying buffer
+
+
+def register_frontend(reg):
+    # the dynamic Earley lexers scan the text itself: they are never handed a TextSlice - a window is refused (TypeError), a slice that covers
+    # the whole buffer is unwrapped (F52)
+    reg.cls('LexerConfT', fields={'lexer_type': 'str'})
+    reg.cls('ParsingFrontend', target='lark.parser_frontends:ParsingFrontend', consts={'lexer_conf': 'LexerConfT'})
+    reg.cls('TypeError', exception=True, bases=['Exception'])
+    DYN = "(self.lexer_conf.lexer_type == 'dynamic' or self.lexer_conf.lexer_type == 'dynamic_complete')"
+    reg.contract('lark.parser_frontends:ParsingFrontend.parse#dynamic-guard', serves=['C15'], region=_dynamic_guard_region,
+                 params={'self': 'ParsingFrontend', 'text': 'any'},
+                 requires=['implies(isinstance(text, TextSlice), cast(text, TextSlice).end is not None)'],
+                 ghost={'ensures_fall': ['implies(%s, not isinstance(text, TextSlice))' % DYN,
+                                         'implies(%s and isinstance(old(text), TextSlice), text == cast(cast(old(text), TextSlice).text, any))' % DYN,
+                                         'implies(not (%s and isinstance(old(text), TextSlice)), text == old(text))' % DYN,
+                                         # ... and only a slice that covers the whole buffer gets that far
+                                         'implies(%s and isinstance(old(text), TextSlice), cast(old(text), TextSlice).start == 0 and '
+                                         'val(cast(old(text), TextSlice).end) == len(cast(old(text), TextSlice).text))' % DYN]},
+                 raises={'TypeError': [DYN, 'isinstance(old(text), TextSlice)',
+                                       'not (cast(old(text), TextSlice).start == 0 and val(cast(old(text), TextSlice).end) == len(cast(old(text), TextSlice).text))']},
+                 names={'TextSlice': ('class', 'TextSlice'), 'TypeError': ('class', 'TypeError')}, replay=_replay)
+
